@@ -220,6 +220,16 @@ def explained_by_c04(b, m, label, val, locs, typed):
     return "exmax-with-exmin" in label or c04.exmax_with_exmin_site(b.schema, m["payload"], sent)
 
 
+def rejected_valid_explained_by_c04(b, m, val, locs, typed, w):
+    """is a valid request the server refuses one of C04's recorded findings (an optional array/map with MinLength that is absent)?"""
+    try:
+        name = json.loads(w.get("resp_body") or "{}").get("name")
+        sent = c04.transmitted(b.schema, m["payload"], val, locs, typed)
+    except (c04.Skip, ValueError):
+        return True
+    return name == "invalid_length" and c04.absent_optional_collection(b.schema, m["payload"], sent)
+
+
 def exchange(o):
     w = o.get("wire") or {}
     if not w.get("method"):
@@ -582,6 +592,10 @@ def judge_design(c, b, drv, per_valid, cap):
                            "%s.%s [%s]: the document lists the parameter as optional with a default (required AND defaulted attributes are documented with "
                            "IsRequiredNoDefault), the server answers %s %s when it is absent" % (s["name"], m["name"], label, w.get("status"), (w.get("resp_body") or "")[:160]),
                            input=inp, design=b.design)
+                elif sp is not None and sp == doc_ok and not server_ok and not rejected_valid_explained_by_c04(b, m, val, locs, typed, w):
+                    c.fail("c14/server-rejects-what-document-and-design-accept:" + lc2,
+                           "%s.%s [%s]: the server answers %s %s to a request that the design's validations and the document both accept" %
+                           (s["name"], m["name"], label, w.get("status"), (w.get("resp_body") or "")[:200]), input=inp, design=b.design)
                 elif sp is not None and sp == doc_ok:
                     c.hist("attributed", "server deviates from the specification (C04): " + (("server accepts invalid:" + kc) if server_ok else ("server rejects valid:" + lc2)))
                     ex = c.cov.setdefault("attributed_examples", [])
